@@ -12,7 +12,7 @@
      97..                      free (barycentric weights, query point, ...)
    A theorem `forall l : list R, Reval l e1 = Reval l e2` therefore quantifies over all
    reference points, all node coordinates and all affine maps at once. *)
-From Coq Require Import QArith Qabs Qreals Reals Ring_polynom List String Lia Lra Bool Arith.
+From Coq Require Import QArith Qabs Qreals Reals Ring_polynom Ring_theory InitialRing RealField List String Lia Lra Bool Arith.
 From EFLib Require Import PolyQ ElemDefs QuadDefs.
 Import ListNotations.
 Local Open Scope nat_scope.
@@ -148,6 +148,47 @@ Fixpoint rule_sum_pw (pts : list (list Q)) (ws : list Q) (f : PExpr Q) : PExpr Q
   end.
 Definition rule_sum (r : rule) (f : PExpr Q) : PExpr Q := rule_sum_pw (rpts r) (rw r) f.
 
+(* ---------- normaliser with reduced rational arithmetic ---------- *)
+(* Same normal form as EFLib.PolyQ.Qnorm but every coefficient operation is followed by Qred:
+   the quadrature tables are dyadic rationals with 2^52-size denominators and unreduced sums
+   would grow exponentially.  Soundness is re-proved with the same library theorem
+   (Ring_polynom.ring_correct) for the reduced operations. *)
+Definition Qplus_r (x y : Q) : Q := Qred (x + y).
+Definition Qmult_r (x y : Q) : Q := Qred (x * y).
+Definition Qminus_r (x y : Q) : Q := Qred (x - y).
+Definition Qopp_r (x : Q) : Q := Qred (- x).
+Definition QnormR (pe : PExpr Q) : Pol Q :=
+  norm_subst 0%Q 1%Q Qplus_r Qmult_r Qminus_r Qopp_r Qeq_bool cdivQ O nil pe.
+Definition peR_eqb (e1 e2 : PExpr Q) : bool := Peq Qeq_bool (QnormR e1) (QnormR e2).
+
+Lemma Q2R_morph_r : ring_morph 0%R 1%R Rplus Rmult Rminus Ropp eq 0%Q 1%Q Qplus_r Qmult_r Qminus_r Qopp_r Qeq_bool Q2R.
+Proof.
+  constructor.
+  - unfold Q2R; simpl; lra.
+  - unfold Q2R; simpl; lra.
+  - intros; unfold Qplus_r; rewrite (Qeq_eqR _ _ (Qred_correct _)); apply Q2R_plus.
+  - intros; unfold Qminus_r; rewrite (Qeq_eqR _ _ (Qred_correct _)); apply Q2R_minus.
+  - intros; unfold Qmult_r; rewrite (Qeq_eqR _ _ (Qred_correct _)); apply Q2R_mult.
+  - intros; unfold Qopp_r; rewrite (Qeq_eqR _ _ (Qred_correct _)); apply Q2R_opp.
+  - intros x y H. apply Qeq_bool_eq in H. now apply Qeq_eqR.
+Qed.
+Lemma cdivQ_th_r : div_theory eq Qplus_r Qmult_r Q2R cdivQ.
+Proof.
+  constructor. intros a b. unfold cdivQ, Qplus_r, Qmult_r.
+  rewrite (Qeq_eqR _ _ (Qred_correct _)), Q2R_plus, (Qeq_eqR _ _ (Qred_correct _)), Q2R_mult.
+  replace (Q2R 0) with 0%R by (unfold Q2R; simpl; lra). lra.
+Qed.
+Theorem QnormR_sound (l : list R) (e1 e2 : PExpr Q) :
+  peR_eqb e1 e2 = true -> Reval l e1 = Reval l e2.
+Proof.
+  intro H. unfold Reval.
+  apply (@ring_correct R 0%R 1%R Rplus Rmult Rminus Ropp eq (Eqsth R)
+          (Eq_ext Rplus Rmult Ropp) R_ARth Q 0%Q 1%Q Qplus_r Qmult_r Qminus_r Qopp_r Qeq_bool Q2R Q2R_morph_r
+          nat N.to_nat pow R_power_theory cdivQ cdivQ_th_r O l nil e1 e2).
+  - exact I.
+  - exact H.
+Qed.
+
 (* ---------- coefficient-wise tests on normal forms ---------- *)
 Fixpoint pol_forall (f : Q -> bool) (p : Pol Q) : bool :=
   match p with
@@ -156,7 +197,7 @@ Fixpoint pol_forall (f : Q -> bool) (p : Pol Q) : bool :=
   | PX a _ b => pol_forall f a && pol_forall f b
   end.
 Definition coeffs_within (tol : Q) (e : PExpr Q) : bool :=
-  pol_forall (fun c => Qle_bool (Qabs c) tol) (Qnorm e).
+  pol_forall (fun c => Qle_bool (Qabs c) tol) (QnormR e).
 
 (* degree in variable v is <= d: the (d+1)-th formal derivative vanishes identically *)
 Fixpoint pd_iter (v : positive) (n : nat) (e : PExpr Q) : PExpr Q :=
